@@ -345,7 +345,23 @@ func TestC10Close(t *testing.T) {
 				switch p.Name {
 				case "req":
 					if !act["peer"] {
-						continue // Send would block without a peer
+						// no peer: Send waits for a connection, and a Recv started on the
+						// same context meanwhile waits with it; Close must end both
+						pending += 2
+						stats.Class("req_recv_behind_blocked_send")
+						go func() {
+							err := h.c.Send([]byte("request"))
+							results <- callRes{"Send on " + h.name, err, false}
+						}()
+						time.Sleep(20 * time.Millisecond)
+						go func() {
+							b, err := h.c.Recv()
+							if err == mangos.ErrProtoState {
+								err = mangos.ErrClosed // the Send had not started yet (scheduling): not under test
+							}
+							results <- callRes{"LateRecv on " + h.name, err, b != nil && err == nil}
+						}()
+						continue
 					}
 					_ = h.c.SetOption(mangos.OptionSendDeadline, time.Second)
 					if err := h.c.Send([]byte("request")); err != nil {
